@@ -66,11 +66,13 @@ func runGoAway(sc goawayScenario, res *caseResult) {
 		mu.Lock()
 		res.Viol = append(res.Viol, [2]string{key, fmt.Sprintf(format, a...)})
 		mu.Unlock()
+		progressTick.Add(1) // release: the stall monitor reads res after an atomic load of the tick
 	}
 	count := func(k string, d int64) {
 		mu.Lock()
 		res.Counters[k] += d
 		mu.Unlock()
+		progressTick.Add(1)
 	}
 	var noDial atomic.Bool
 	fx, err := wire.NewClientFixture()
@@ -201,6 +203,7 @@ func runGoAway(sc goawayScenario, res *caseResult) {
 					res.Viol = append(res.Viol, [2]string{"rpc-returned-after-deadline", fmt.Sprintf("worker %d rpc %d returned at %v, later than its deadline %v, with %v", w, k, fin, dl, err)})
 				}
 				mu.Unlock()
+				progressTick.Add(1)
 			}
 		}()
 	}
@@ -221,6 +224,7 @@ func runGoAway(sc goawayScenario, res *caseResult) {
 			}
 		}
 		mu.Unlock()
+		progressTick.Add(1)
 	}
 	if done.Load() < int64(sc.Workers) {
 		v("rpc-running-past-deadline", "%d of %d workers have not finished their RPCs at %v although every deadline has passed", int64(sc.Workers)-done.Load(), sc.Workers, now())
